@@ -353,13 +353,9 @@ func (p *parser) infix(node Node, first, prec int) (Node, error) {
 				return nil, err
 			}
 
-			rightPrec := newPrec
-			if _, ok := node.(CurrentNode); ok {
-				// applied to the current node this is the prefix wildcard
-				rightPrec = projectionPrec
-			}
-
-			right, err := p.projection(rightPrec)
+			// like every other projection, the right-hand side extends over
+			// all following selectors: a.*.b.c projects b.c
+			right, err := p.projection(projectionPrec)
 			if err != nil {
 				return nil, err
 			}
